@@ -1,3 +1,67 @@
-From Coq Require Import List.
-Require Import AOV.base.Num AOV.model.FtScreen.
-Theorem C07_placeholder : True. Proof. exact I. Qed.
+(* C07 -- FFT phase screens have exactly the discretised von Karman statistics.
+   Model: coq/model/FtScreen.v (the screen as a function of its Gaussian draws), tied to
+   turbulence/phasescreen.py by the correspondence check with injected draws.  Ensemble statements are read
+   through second-moment algebra: independent unit-variance draws, covariance = sum over unit draws. *)
+From Coq Require Import Reals List Arith.
+Require Import AOV.base.Num AOV.base.NumR AOV.base.Cplx AOV.model.FtScreen AOV.proofs.C07_lemmas AOV.proofs.C07_proofs.
+Import ListNotations.
+Local Open Scope R_scope.
+
+(* every pixel is this linear function of the draws (even N = 2c) *)
+Theorem C07_screen_is_linear_in_its_draws : forall G K r0 L0 l0 N c delta al be (a1 b1 a2 b2 : list (list R)),
+  N = (2 * c)%nat -> (1 <= c)%nat -> wf_mat N N a1 -> wf_mat N N b1 -> wf_mat N N a2 -> wf_mat N N b2 ->
+  ft_phase_screen (ROps G K) r0 L0 l0 N delta (madd (mscal al a1) (mscal be a2)) (madd (mscal al b1) (mscal be b2))
+  = madd (mscal al (ft_phase_screen (ROps G K) r0 L0 l0 N delta a1 b1))
+         (mscal be (ft_phase_screen (ROps G K) r0 L0 l0 N delta a2 b2)).
+Proof. exact C07_linear. Qed.
+Print Assumptions C07_screen_is_linear_in_its_draws.
+
+(* exact ensemble covariance = inverse discrete Fourier sum of the sampled modified von Karman spectrum
+   (psd_grid has the zero frequency removed) *)
+Theorem C07_covariance_is_the_inverse_DFT_of_the_spectrum : forall G K r0 L0 l0 N c delta y x y' x',
+  N = (2 * c)%nat -> (1 <= c)%nat -> (y < N)%nat -> (x < N)%nat -> (y' < N)%nat -> (x' < N)%nat ->
+  Cov G K r0 L0 l0 N delta y x y' x'
+  = rsum (fun i => rsum (fun j =>
+      ent 0 (psd_grid (ROps G K) r0 L0 l0 N delta) i j * (1 / (INR N * delta)) ^ 2
+      * cos (2 * PI * ((INR i - INR c) * (INR y - INR y') + (INR j - INR c) * (INR x - INR x')) / INR N)) N) N
+  /\ ent 0 (psd_grid (ROps G K) r0 L0 l0 N delta) c c = 0.
+Proof. intros; split; [apply C07_covariance; assumption|eapply C07_dc_removed; eassumption]. Qed.
+Print Assumptions C07_covariance_is_the_inverse_DFT_of_the_spectrum.
+
+(* hence: stationary, position-independent variance, zero mean *)
+Theorem C07_stationary_constant_variance_zero_mean : forall G K r0 L0 l0 N c delta, N = (2 * c)%nat -> (1 <= c)%nat ->
+  (forall y x y' x' u v, (y + u < N)%nat -> (x + v < N)%nat -> (y' + u < N)%nat -> (x' + v < N)%nat ->
+     Cov G K r0 L0 l0 N delta (y + u) (x + v) (y' + u) (x' + v) = Cov G K r0 L0 l0 N delta y x y' x') /\
+  (forall y x y2 x2, (y < N)%nat -> (x < N)%nat -> (y2 < N)%nat -> (x2 < N)%nat ->
+     Cov G K r0 L0 l0 N delta y x y x = Cov G K r0 L0 l0 N delta y2 x2 y2 x2) /\
+  (forall a b, wf_mat N N a -> wf_mat N N b ->
+     nsum (ROps G K) (map (nsum (ROps G K)) (ft_phase_screen (ROps G K) r0 L0 l0 N delta a b)) = 0).
+Proof. intros G K r0 L0 l0 N c delta HN Hc. repeat apply conj.
+  - intros. apply (C07_stationary G K r0 L0 l0 N c); assumption.
+  - intros y x y2 x2 Hy Hx Hy2 Hx2. rewrite (C07_variance_constant G K r0 L0 l0 N c delta y x), (C07_variance_constant G K r0 L0 l0 N c delta y2 x2); auto.
+  - intros a b Ha Hb. apply (C07_zero_mean_nsum G K r0 L0 l0 N c); assumption. Qed.
+Print Assumptions C07_stationary_constant_variance_zero_mean.
+
+(* amplitude scales exactly as r0^(-5/6) for fixed draws *)
+Theorem C07_amplitude_scales_as_r0_minus_five_sixths : forall G K r0 L0 l0 N c delta s (a b : list (list R)),
+  N = (2 * c)%nat -> (1 <= c)%nat -> wf_mat N N a -> wf_mat N N b -> 0 < s -> 0 < r0 ->
+  ft_phase_screen (ROps G K) (s * r0) L0 l0 N delta a b
+  = map (map (fun v => Rpower s (-5/6) * v)) (ft_phase_screen (ROps G K) r0 L0 l0 N delta a b).
+Proof. exact C07_r0_scaling. Qed.
+Print Assumptions C07_amplitude_scales_as_r0_minus_five_sixths.
+
+(* sub-harmonics only add low-frequency power: with independent draw blocks the ensemble structure function
+   is D_hi + D_lo with D_lo >= 0, so no structure-function value decreases *)
+Theorem C07_subharmonics_only_add_power : forall G K r0 L0 l0 N delta c y x y' x',
+  N = (2 * c)%nat -> (1 <= c)%nat -> (y < N)%nat -> (x < N)%nat -> (y' < N)%nat -> (x' < N)%nat ->
+  D_total G K r0 L0 l0 N delta y x y' x' = D_hi G K r0 L0 l0 N delta y x y' x' + D_lo G K r0 L0 l0 N delta y x y' x'
+  /\ 0 <= D_lo G K r0 L0 l0 N delta y x y' x' /\ 0 <= D_hi G K r0 L0 l0 N delta y x y' x'.
+Proof. exact C07_sh_structure_additive. Qed.
+Print Assumptions C07_subharmonics_only_add_power.
+
+(* NOT proved (kept visible): convergence of the screen's structure function to the analytic von Karman one
+   as the grid is refined, and that the sub-harmonic variant is closer at large separations -- statements
+   about discretisation error; numerical falsifier only. *)
+
+Example C07_nonvacuous : 2%nat = (2 * 1)%nat /\ (1 <= 1)%nat /\ wf_mat 2 2 [[1; 0]; [0; 1]].
+Proof. repeat split; repeat constructor. Qed.
